@@ -38,7 +38,7 @@ def configs(thorough: bool) -> list:
     q = lambda fams: ", ".join('"%s"' % f for f in fams)
     if thorough:
         return [
-            ("pairs", dict(fams=q(ALLFAMS), nsers="0,1,2,3", catsel="1,2,3,4,5,6,7,8,9", xysel="1,2,3,4,5,6,7,8", L=1, fmt="prefix", reopen="end",
+            ("pairs", dict(fams=q(ALLFAMS), nsers="0,1,2,3", catsel="1,2,3,4,5,6,7,8,9,10", xysel="1,2,3,4,5,6,7,8", L=1, fmt="prefix", reopen="end",
                            rmod=2, corpussel=0)),
             ("seqs", dict(fams=q(ALLFAMS), nsers="0,1,3", catsel="3,7", xysel="1,4,5", L=3, fmt="all", reopen="end", rmod=2, corpussel=0)),
             ("corpus", dict(fams='"corpus"', nsers="0,1,2,5", catsel="2,4,7", xysel="1,3,4,5", L=2, fmt="none", reopen="end", rmod=3, corpussel=0)),
@@ -47,7 +47,7 @@ def configs(thorough: bool) -> list:
                             hows='"staged", "fresh"')),
         ]
     return [
-        ("pairs", dict(fams=q(ALLFAMS), nsers="0,1,3", catsel="1,2,3,4,5,6,7,8,9", xysel="1,2,3,4,5,6", L=1, fmt="all", reopen="end", rmod=5,
+        ("pairs", dict(fams=q(ALLFAMS), nsers="0,1,3", catsel="1,2,3,4,5,6,7,8,9,10", xysel="1,2,3,4,5,6", L=1, fmt="all", reopen="end", rmod=5,
                        corpussel=0)),
         ("seqs", dict(fams=q(["bar", "doughnut", "radar", "xy", "bubble"]), nsers="0,2,3", catsel="4,7", xysel="1,4,5", L=2, fmt="ends",
                       reopen="end", rmod=3, corpussel=0)),
